@@ -70,9 +70,25 @@ StakeChange ==
           /\ cnt' = cnt + 1 /\ bad' = {}
     /\ UNCHANGED <<o, h, inb>>
 
-KindSet == {"Begin", "End", "Blocks", "Price", "Holders", "StakeChange"}
+\* one pass of a validator's oracle service (the REAL relayPricesAndHolders in replay): its claims are applied in order
+ServedLists == { <<<<"e5", 3>>>>, <<<<"e5", 3>>, <<"e6", 40>>>>, <<<<"e5", 3>>, <<"e6", 40>>, <<"e8", 0>>>>, <<<<"e5", 3>>, <<"e6", 1>>>> }
+OrcRelay ==
+    /\ inb
+    /\ \E v \in Vals, hub \in HubPrices, eth \in {4, 8}, l \in ServedLists :
+         LET served == [pr4 |-> BasePrices(hub, eth), list |-> l]
+             outs == ServiceClaims(o, v, served, 2)
+             F[k \in 0..Len(outs)] ==
+                 IF k = 0 THEN o
+                 ELSE IF outs[k].k = "Price" THEN PriceClaim(F[k - 1], stk, Denoms, [by |-> v, ep |-> outs[k].ep, pr |-> outs[k].pr4]).o
+                 ELSE HoldersClaim(F[k - 1], stk, [by |-> v, ep |-> outs[k].ep, list |-> outs[k].list]).o
+         IN /\ o' = F[Len(outs)]
+            /\ hist' = IF KeepHist THEN Append(hist, [k |-> "OrcRelay", i |-> cnt + 1, by |-> v, pr4 |-> served.pr4, list |-> l, period |-> 2]) ELSE hist
+            /\ cnt' = cnt + 1 /\ bad' = {}
+    /\ UNCHANGED <<stk, h, inb>>
+
+KindSet == {"Begin", "End", "Blocks", "Price", "Holders", "StakeChange", "OrcRelay", "OrcRelay2"}
 ActionOf(kind) == CASE kind = "Begin" -> Begin [] kind = "End" -> End [] kind = "Blocks" -> Blocks [] kind = "Price" -> Price
-                    [] kind = "Holders" -> Holders [] kind = "StakeChange" -> StakeChange [] OTHER -> FALSE
+                    [] kind = "Holders" -> Holders [] kind = "StakeChange" -> StakeChange [] kind \in {"OrcRelay", "OrcRelay2"} -> OrcRelay [] OTHER -> FALSE
 Next ==
     /\ cnt < MaxLen
     /\ IF ~TwoLevel THEN (\E kind \in KindSet : ActionOf(kind)) /\ pick' = ""
